@@ -411,6 +411,51 @@ func jsonOf(v interface{}) string {
 
 func raw(v interface{}) json.RawMessage { b, _ := json.Marshal(v); return b }
 
+// c09OwnFields: the union's own properties as the model sees them (name, optional-and-nil-able), in the order of the Go
+// struct (sorted names). Unions with additional properties go through another template and are not modelled.
+func c09OwnFields(u c09Union) []J {
+	switch u.Fixed {
+	case "meta":
+		return []J{{"name": "meta", "optNil": true}}
+	case "name":
+		return []J{{"name": "name", "optNil": false}}
+	case "kind":
+		fs := []J{{"name": c09DP, "optNil": true}, {"name": "zone", "optNil": true}}
+		if c09DP > "zone" {
+			fs[0], fs[1] = fs[1], fs[0]
+		}
+		return fs
+	}
+	return []J{}
+}
+
+func c09ObjPairs(o map[string]interface{}) [][]string {
+	out := [][]string{}
+	for _, k := range SortedKeys(o) {
+		out = append(out, []string{k, jsonOf(o[k])})
+	}
+	return out
+}
+
+// c09ModelJSON asks Model/UnionJson.lean for the object the union marshals to and returns it as JSON text.
+func c09ModelJSON(ctx *Ctx, req J) (string, error) {
+	var pairs [][]string
+	req["fn"] = "unionJson"
+	if err := ctx.Model(req, &pairs); err != nil {
+		return "", err
+	}
+	var b strings.Builder
+	b.WriteString("{")
+	for i, kv := range pairs {
+		if i > 0 {
+			b.WriteString(",")
+		}
+		b.WriteString(jsonOf(kv[0]) + ":" + kv[1])
+	}
+	b.WriteString("}")
+	return b.String(), nil
+}
+
 func runC09(ctx *Ctx) error {
 	ctx.Res.Rule = "seeded unions (oneOf/anyOf of 1-4 referenced objects incl. names needing normalisation, plus primitive/array/inline members; discriminator none/implicit/explicit/partial/many-to-one; the union's own fixed properties incl. one named like the discriminator; additionalProperties (a fixed member never shows among the additional ones); nested in a property, an array and a map) compiled; every From/As/Merge/Discriminator/ValueByDiscriminator of every union type called through reflection on sample member values; CORR: the case table of ValueByDiscriminator and the values assigned by From* (AST) vs the Lean table; non-trivial = every (union, member) pair"
 	kit, err := NewRunKit(ctx.Work)
@@ -613,6 +658,27 @@ func runC09(ctx *Ctx) error {
 					ctx.Res.Violate("as-from:"+sig, fmt.Sprintf("From%s(%s) then As%s() gives %s %s; expected %s", sfx, jsonOf(v), sfx, asJS, e, jsonOf(want)), replay)
 				}
 				out, _ := resp["out"].(string)
+				if wo, isObj := want.(map[string]interface{}); isObj && !u.Addl {
+					// CORR: what Model/UnionJson.lean says the union marshals to after From<Member> on a fresh value — the stored
+					// member (as the accessor returns it) under the own fields (all nil but the discriminator From assigns)
+					fs := c09OwnFields(u)
+					own := make([]interface{}, len(fs))
+					for i, f := range fs {
+						if f["name"] == c09DP && u.Fixed == "kind" {
+							if dv, has := wo[c09DP]; has {
+								own[i] = jsonOf(dv)
+							}
+						}
+					}
+					model, merr := c09ModelJSON(ctx, J{"fields": fs, "raw": c09ObjPairs(wo), "own": own})
+					if merr != nil {
+						return merr
+					}
+					ctx.Res.Count("corr:union-marshal")
+					if !jsonEqual(out, model) {
+						ctx.Res.Disagree("CORR MarshalJSON after From"+sfx+" vs UnionJson.marshal", J{"union": sig, "member": wo}, model, out)
+					}
+				}
 				if !jsonEqual(out, jsonOf(withOwn(want))) {
 					ctx.Res.Violate("marshal:"+sig, fmt.Sprintf("after From%s(%s) the union marshals to %s; expected %s", sfx, jsonOf(v), out, jsonOf(withOwn(want))), replay)
 				}
@@ -727,6 +793,16 @@ func runC09(ctx *Ctx) error {
 						ctx.Res.Violate("dispatch:"+sig, fmt.Sprintf("discriminator value %q is mapped to %s; ValueByDiscriminator returns %q %s", k, gt, dyn, e), replay)
 					}
 					out, _ := resp["out"].(string)
+					if !u.Addl {
+						model, merr := c09ModelJSON(ctx, J{"fields": c09OwnFields(u), "decode": c09ObjPairs(o)})
+						if merr != nil {
+							return merr
+						}
+						ctx.Res.Count("corr:union-decode-encode")
+						if !jsonEqual(out, model) {
+							ctx.Res.Disagree("CORR UnmarshalJSON then MarshalJSON vs UnionJson.marshal∘unmarshal", J{"union": sig, "instance": o}, model, out)
+						}
+					}
 					if !jsonEqual(out, jsonOf(o)) {
 						ctx.Res.Violate("lossless:"+sig, fmt.Sprintf("%s decoded and encoded again is %s", jsonOf(o), out), replay)
 					}
